@@ -27,3 +27,9 @@ reg("C05", "other", [PL.h_borrow, PL.s_persist, PL.h_pending, PL.h_cap, PL.h_tot
 reg("C08", "other", [PL.h_total, PL.h_cap, T.t_width], "dev", "dev")
 reg("C03", "other", [PL.g_dispatch], "dev", "dev")
 PROPS["C04"]["rules"] += [PL.h_exactfill]
+import r_dispatch as D
+reg("C06", "other", [D.h_dispatch3, D.h_hdr1, D.h_block, PL.h_exactfill, T.t_varint_readers], "dev", "dev")
+import r_io as IO
+reg("C07", "other", [IO.s_readers, IO.s_ioerr, IO.t_eof, IO.h_noswallow, D.h_block], "dev", "dev")
+reg("C14", "other", [IO.s_ioerr, IO.s_readers, IO.s_writers, IO.h_fromio, IO.h_toio, IO.h_noswallow, IO.t_eof, IO.h_async1], "dev", "dev")
+reg("C09", "other", [IO.h_async1, IO.h_asref, IO.s_writers, IO.s_pure, L.l_hdr, L.l_fixed], "dev", "dev")
